@@ -279,7 +279,7 @@ func judge(loops [][]pt, tris [][3]pt, wantCW bool) string {
 
 func toPt(c model2d.Coord) (pt, bool) {
 	x, y := math.Round(c.X), math.Round(c.Y)
-	if math.Abs(c.X-x) > 1e-9 || math.Abs(c.Y-y) > 1e-9 {
+	if !(math.Abs(c.X-x) <= 1e-9) || !(math.Abs(c.Y-y) <= 1e-9) {
 		return pt{}, false
 	}
 	return pt{int64(x), int64(y)}, true
@@ -457,7 +457,7 @@ func checkTriangulateMesh(r *ev.Run, loops [][]pt, place string) {
 	}
 	if !rep.Manifold() {
 		r.Violation("ProfileMesh/nonmanifold", rep.String(), c)
-	} else if math.Abs(rep.Volume-float64(want)) > 1e-9*float64(want) { // area2/2 * height 2
+	} else if !(math.Abs(rep.Volume-float64(want)) <= 1e-9*float64(want)) { // area2/2 * height 2
 		r.Violation("ProfileMesh/volume", fmt.Sprintf("volume %g, want area x height = %g", rep.Volume, float64(want)), c)
 	}
 }
